@@ -159,7 +159,7 @@ Proof.
       * intros i x Hn. destruct i; discriminate.
     + intros t th Hn. apply nth_error_In in Hn. destruct (Hth _ Hn) as [gr [gn [s E]]]. subst.
       destruct (entry_ann ps HD P_init false) as [x [A B]]. exists x. split. unfold cur_a. simpl. exact A.
-      eapply sat2_leq; eauto. apply sat2_a0.
+      eapply sat2_leq; eauto. apply sat2_a0e.
   - constructor.
     + intros t th j Hn Hl. apply nth_error_In in Hn. destruct (Hth _ Hn) as [gr [gn [s E]]]. subst. discriminate.
     + intros t th i Hn Hc. apply nth_error_In in Hn. destruct (Hth _ Hn) as [gr [gn [s E]]]. subst. discriminate.
